@@ -484,7 +484,7 @@ def _jobs_for(prop, tier):
         return [j for j in jobs_option_below(tier) if j[1][3] == 'combinations'] + jobs_combinations(tier) + jobs_axis0(tier, 'combinations') + jobs_record_below(tier, ('combinations',))
     if prop == 'C03':
         return jobs_c03(tier) + jobs_option_reduce(tier) + jobs_axis(tier, ('reduce',)) + jobs_reduce_nonlocal(tier) + jobs_unmasked_passthrough(('reduce_next',)) + jobs_record_reduce(tier)
-    return {'C02': (lambda t: jobs_c02(t) + jobs_numpy_toregular(t) + jobs_regular_getitem_jagged(t) + jobs_list_asslice(t) + jobs_indexed_widths(t) + jobs_indexed_is_unique(t)), 'C03': jobs_c03, 'C04': (lambda t: jobs_c04(t) + jobs_numpy_toregular(t)), 'C06': (lambda t: jobs_c06(t) + jobs_axis(t, ('sort', 'argsort')) + jobs_numpy_sort(t) + jobs_sort_nonlocal(t) + jobs_option_sort(t) + jobs_option_sort_above(t) + jobs_option_argsort(t) + jobs_string_argsort(t) + jobs_unmasked_passthrough(('sort_next', 'argsort_next'))), 'C08': (lambda t: jobs_c08(t) + jobs_numpy(t) + jobs_numpy_types(t) + jobs_union(t) + jobs_reverse_merge(t) + jobs_record_merge(t) + jobs_list_merge(t) + [j for j in jobs_record_named(t) if j[0] is h_record_mergemany_named] + jobs_merge_union(t) + jobs_union_ops(t)), 'C17': (lambda t: jobs_c17(t) + jobs_record_keys(t) + jobs_record_key_at(t) + jobs_node_form(t) + jobs_numpy_form(t) + jobs_record_form(t) + jobs_node_type(t) + jobs_union_form(t)), 'C12': (lambda t: jobs_numpy(t) + jobs_numpy_astype(t) + [(h_index_alloc, (), 900)] + [(h_axis0, (L_, 'combinations', n_, True), 900) for L_, n_ in ((1, 2), (2, 3), (1, 3), (0, 2))] + [j for j in jobs_numpy_getitem(t) if j[1][3] == 'array']), 'C10': (lambda t: jobs_c10(t) + [j for j in jobs_record_named(t) if j[0] is h_record_field_key] + jobs_project(t) + [j for j in jobs_option_below(t) if j[1][3] in ('getitem_field', 'getitem_fields')] + jobs_record_setitem(t) + jobs_record_key_at(t)), 'C05': jobs_c05, 'C09': jobs_c09}.get(prop, lambda t: [])(tier)
+    return {'C02': (lambda t: jobs_c02(t) + jobs_numpy_toregular(t) + jobs_regular_getitem_jagged(t) + jobs_list_asslice(t) + jobs_indexed_widths(t) + jobs_indexed_is_unique(t)), 'C03': jobs_c03, 'C04': (lambda t: jobs_c04(t) + jobs_numpy_toregular(t)), 'C06': (lambda t: jobs_c06(t) + jobs_axis(t, ('sort', 'argsort')) + jobs_numpy_sort(t) + jobs_sort_nonlocal(t) + jobs_option_sort(t) + jobs_option_sort_above(t) + jobs_option_argsort(t) + jobs_string_argsort(t) + jobs_unmasked_passthrough(('sort_next', 'argsort_next'))), 'C08': (lambda t: jobs_c08(t) + jobs_numpy(t) + jobs_numpy_types(t) + jobs_union(t) + jobs_reverse_merge(t) + jobs_record_merge(t) + jobs_list_merge(t) + [j for j in jobs_record_named(t) if j[0] is h_record_mergemany_named] + jobs_merge_union(t) + jobs_union_ops(t)), 'C17': (lambda t: jobs_c17(t) + jobs_record_keys(t) + jobs_record_key_at(t) + jobs_node_form(t) + jobs_numpy_form(t) + jobs_record_form(t) + jobs_node_type(t) + jobs_union_form(t) + jobs_record_depth(t)), 'C12': (lambda t: jobs_numpy(t) + jobs_numpy_astype(t) + [(h_index_alloc, (), 900)] + [(h_axis0, (L_, 'combinations', n_, True), 900) for L_, n_ in ((1, 2), (2, 3), (1, 3), (0, 2))] + [j for j in jobs_numpy_getitem(t) if j[1][3] == 'array']), 'C10': (lambda t: jobs_c10(t) + [j for j in jobs_record_named(t) if j[0] is h_record_field_key] + jobs_project(t) + [j for j in jobs_option_below(t) if j[1][3] in ('getitem_field', 'getitem_fields')] + jobs_record_setitem(t) + jobs_record_key_at(t)), 'C05': jobs_c05, 'C09': jobs_c09}.get(prop, lambda t: [])(tier)
 
 
 # ------------------------------------------------------------------------------------------------ C01: getitem_next of list nodes
@@ -6082,6 +6082,75 @@ def jobs_union_form(tier):
     if tier != 'quick':
         q += [('64', 1), ('64', 3), ('32', 2)]
     return [(h_union_form, a, 900) for a in q]
+
+
+@guard
+def h_record_depth(nfields):
+    """purelist_depth / minmax_depth / branch_depth / numfields of a RecordArray over field contents of any depths: a record array is one level
+    (its records) for purelist_depth; minmax_depth spans the shallowest minimum and the deepest maximum of the fields; branch_depth reports
+    branching when a field branches or two fields differ in depth, with the smallest depth; without fields all of them say one level,
+    consistently: minmax_depth = (1, 1), branch_depth = (false, 1)"""
+    nc = NodeCtx(['REC', 'IA', 'IDX', 'CNT', 'UTL', 'KD', 'IDS'], [], unwind=max(12, 4 * nfields + 10))
+    this, vals, lens = build_record(nc, nfields, 2)
+    names = ['content0'] + ['content_%d' % k for k in range(1, nfields)]
+    dmin = [nc.m.bv('mindepth%d' % k) for k in range(nfields)]
+    dmax = [nc.m.bv('maxdepth%d' % k) for k in range(nfields)]
+    bfl = [nc.m.bv('branches%d' % k) for k in range(nfields)]
+    bde = [nc.m.bv('branchdepth%d' % k) for k in range(nfields)]
+    for k in range(nfields):
+        nc.m.assume(dmin[k] >= 1, dmin[k] <= dmax[k], dmax[k] <= 100, z3.Or(bfl[k] == 0, bfl[k] == 1), bde[k] >= 1, bde[k] <= 100)
+
+    def which(p):
+        objs = [q.obj for g, q in nodeh.ptr_cases(p) if q.obj is not None]
+        if len(objs) != 1 or objs[0] not in names:
+            raise Unsupported('depth asked of %s' % (objs,))
+        return names.index(objs[0])
+    S = nc.slot
+    nc.m.eng.stubs['vf$slot%d' % S('12minmax_depthEv')] = lambda eng, fr, ins, st, name, argv: [dmin[which(argv[0])], dmax[which(argv[0])]]
+    nc.m.eng.stubs['vf$slot%d' % S('12branch_depthEv')] = lambda eng, fr, ins, st, name, argv: [z3.Extract(7, 0, bfl[which(argv[0])]), bde[which(argv[0])]]
+    obls = []
+    o1 = nc.m.call('_ZNK7awkward11RecordArray14purelist_depthEv', [this])
+    obls.append(('purelist_depth is 1', z3.Or(o1.raised, o1.ret != 1)))
+    o2 = nc.m.call('_ZNK7awkward11RecordArray12minmax_depthEv', [this])
+    if nfields:
+        lo, hi = dmin[0], dmax[0]
+        for k in range(1, nfields):
+            lo = z3.If(dmin[k] < lo, dmin[k], lo); hi = z3.If(dmax[k] > hi, dmax[k], hi)
+    else:
+        lo = hi = BV(1)
+    obls.append(('minmax_depth = (shallowest minimum, deepest maximum) of the fields%s' % ('' if nfields else ': (1, 1) without fields'), z3.Or(o2.raised, o2.ret[0] != lo, o2.ret[1] != hi)))
+    o3 = nc.m.call('_ZNK7awkward11RecordArray12branch_depthEv', [this])
+    if nfields:
+        md = bde[0]
+        for k in range(1, nfields):
+            md = z3.If(bde[k] < md, bde[k], md)
+        anyb = z3.Or([bfl[k] == 1 for k in range(nfields)] + [bde[k] != bde[0] for k in range(1, nfields)])
+    else:
+        md, anyb = BV(1), z3.BoolVal(False)
+    b0 = o3.ret[0]
+    obls.append(('branch_depth: branching iff a field branches or two fields differ in depth; the smallest depth', z3.Or(o3.raised, ((z3.Extract(0, 0, b0) if b0.size() > 1 else b0) == 1) != anyb, o3.ret[1] != md)))
+    o5 = nc.m.call('_ZNK7awkward11RecordArray9numfieldsEv', [this])
+    obls.append(('numfields counts the fields', z3.Or(o5.raised, o5.ret != nfields)))
+
+    def replay(model, ent):
+        # fields alternate between numbers (depth 1) and lists of numbers (depth 2)
+        prog = ''
+        for k in range(nfields):
+            prog += 'i64 2 1 2 ' + ('listoffset64 3 0 1 2 ' if k % 2 else '')
+        prog += 'tuple %d 2 depths' % nfields
+        kind_, got = fullnative.akrun(prog)
+        ds = [2 if k % 2 else 1 for k in range(nfields)]
+        want = [1, min(ds) if ds else 1, max(ds) if ds else 1, len(set(ds)) > 1, min(ds) if ds else 1, nfields]
+        payload = dict(program=prog, native=[kind_, got], expected=want)
+        if kind_ != 'OK' or [got[0], got[1], got[2], bool(got[3]), got[4], got[5]] != want:
+            return True, 'tuple array of %d fields of depths %s: [purelist_depth, min, max, branches, branch depth, numfields] = %s %s, expected %s' % (nfields, ds, kind_, got, want), payload
+        return False, 'native library agrees (%s)' % (got,), payload
+    return mdischarge(nc.m, 'RecordArray depth queries, %d fields' % nfields, obls, [], replay=replay,
+                      extra=dict(bounds='%d field contents whose own depth answers are arbitrary (symbolic)' % nfields))
+
+
+def jobs_record_depth(tier):
+    return [(h_record_depth, (k,), 600) for k in ((0, 2) if tier == 'quick' else (0, 1, 2, 3))]
 
 
 def jobs_record_keys(tier):
